@@ -214,4 +214,62 @@ END:
 '''
 
 # (src_delay, sink_delay, mem_latency)
-TIMINGS = [(0, 0, 1), (0, 3, 2), (3, 0, 3), (3, 3, 2), (0, 5, 2), (2, 1, 1)]
+# a loaded value used as STORE DATA by the very next instruction (and two instructions later); loads feeding loads
+PROGS['lw_sw_data'] = BASE + '''
+  csrr x1, mngr2proc < 1
+  csrr x3, mngr2proc < 2
+  sw   x1, 4(x10)
+  sw   x3, 0(x10)
+  lw   x5, 4(x10)
+  sw   x5, 8(x10)
+  lw   x6, 0(x10)
+  addi x7, x6, 1
+  sw   x6, 12(x10)
+  lw   x8, 8(x10)
+  lw   x9, 12(x10)
+  csrw proc2mngr, x8 > 0
+  csrw proc2mngr, x9 > 0
+  csrw proc2mngr, x7 > 0
+'''
+
+# x0 is hard-wired to zero: writes to it (alu, load, csrr) are discarded, also when it is read much later
+PROGS['x0_writes'] = BASE + '''
+  csrr x1, mngr2proc < 1
+  sw   x1, 4(x10)
+  addi x0, x1, 4
+  lw   x0, 4(x10)
+  csrr x0, mngr2proc < 2
+  add  x0, x1, x1
+  addi x2, x1, 1
+  addi x3, x2, 1
+  addi x4, x3, 1
+  addi x5, x4, 1
+  add  x6, x0, x0
+  addi x7, x0, 3
+  sw   x0, 8(x10)
+  lw   x8, 8(x10)
+  csrw proc2mngr, x6 > 0
+  csrw proc2mngr, x7 > 0
+  csrw proc2mngr, x8 > 0
+  csrw proc2mngr, x5 > 0
+'''
+
+# a csrw waiting for the manager while memory instructions fill the stages behind it
+PROGS['csrw_backpressure'] = BASE + '''
+  csrr x1, mngr2proc < 1
+  csrr x3, mngr2proc < 2
+  sw   x1, 4(x10)
+  csrw proc2mngr, x1 > 0
+  lw   x4, 4(x10)
+  sw   x3, 8(x10)
+  lw   x5, 8(x10)
+  csrw proc2mngr, x3 > 0
+  add  x6, x4, x5
+  sw   x6, 12(x10)
+  csrw proc2mngr, x4 > 0
+  lw   x7, 12(x10)
+  csrw proc2mngr, x5 > 0
+  csrw proc2mngr, x7 > 0
+'''
+
+TIMINGS = [(0, 0, 1), (0, 3, 2), (3, 0, 3), (0, 2, 1), (3, 3, 2), (0, 5, 2), (2, 1, 1)]
